@@ -2803,7 +2803,8 @@ func wireKindHasStep(wc *wireCtx, r *Report, prop string, dirs []string) {
 	}
 }
 
-// producesText: the block builds or hands on text: a call that yields or takes a string, a concatenation, a return of a string.
+// producesText: the block builds or hands on text: a call that yields or takes a string, a concatenation, a return of a string,
+// a text stored into a record field or a list element.
 func producesText(b *ssa.BasicBlock) ssa.Instruction {
 	for _, ins := range b.Instrs {
 		switch x := ins.(type) {
@@ -2819,6 +2820,16 @@ func producesText(b *ssa.BasicBlock) ssa.Instruction {
 		case *ssa.BinOp:
 			if x.Op == token.ADD && isStringType(x.Type()) {
 				return x
+			}
+		case *ssa.Store:
+			// the arm puts its text into a record or a list that is rendered at a common place (`shape{family: "string_list", ...}`)
+			if isStringType(x.Val.Type()) {
+				if _, isConst := x.Val.(*ssa.Const); !isConst {
+					return x
+				}
+				if s, ok := constString(x.Val); ok && s != "" {
+					return x
+				}
 			}
 		case *ssa.Return:
 			for _, rv := range x.Results {
